@@ -470,9 +470,8 @@ def _process(cls: t.Type[PaneBase], opts: PaneOptions):
             continue
 
         if isinstance(getattr(cls, name, None), FieldSpec):
-            # process existing FieldSpec
-            spec: FieldSpec = getattr(cls, name)
-            spec.ty = ty
+            # process existing FieldSpec (a copy: the user's `field()` object may serve several classes)
+            spec: FieldSpec = dataclasses.replace(getattr(cls, name), ty=ty)
         else:
             # make new spec
             spec = FieldSpec(ty=ty, default=getattr(cls, name, _MISSING))
